@@ -95,7 +95,13 @@ def work(shard, rec):
         bg_exact = tuple(Fraction(v) for v in bgc)
         r = rnd.random()
         bga = None
-        if r < 0.12:
+        if r < 0.03 and isinstance(text, str) and kind in ("rgba", "hsla"):
+            # text and background written identically: the background is that value over white, the text that value over the background
+            bk, bg, bga = kind, text, a
+            bgc = fg
+            bg_exact = csscolor.blend(bgc, Fraction(bga), (255, 255, 255))
+            rec.count("identical_translucent_text_and_background")
+        elif r < 0.12:
             bga = rnd.choice(ALPHAS[2:]) if rnd.random() < 0.5 else "%.*f" % (rnd.randrange(1, 5), rnd.random())
             bk = rnd.choice(["rgba", "rgba_tuple", "hsla"])
             bg = SP.spell_translucent(bgc, bga, bk)
